@@ -89,7 +89,46 @@ def c02(v, tier):
                 checks["uploads_cut_by_limit"] += 1
                 if lim is None or lim >= size:
                     v.note_inconclusive(f"{mode}-port: upload below the file size limit did not complete ({tr.note} {tr.error})")
-    return checks, len(plans)
+    # a second write request for a name whose upload was accepted a moment ago and has stored nothing yet, on a
+    # keep-on-error server without --overwrite: whatever it is told, the file behind the first upload's final ACK is
+    # the first upload
+    for single in (False, True):
+        sb = ctx.sandbox("c02")
+        a_body, b_body = b"A" * 1124, b"B" * 562
+        with N.Server(tftpd, sb["srv"], single=single, keep=True, logdir=sb["logs"]) as srv:
+            sa, sb2 = N._sock(timeout=1.0), N._sock(timeout=1.0)
+            tra = N.Transfer()
+            sa.sendto(N.enc_req(N.WRQ, "twice.bin", options=[("timeout", 1), ("windowsize", 2)]), srv.addr)
+            k, f, pa = N.recv(sa, tra)
+            time.sleep(0.1)
+            trb = N.Transfer()
+            ok = None
+            if k == "OACK":
+                # B asks now (nothing stored yet), sends its data after A's first window, A finishes last
+                sb2.sendto(N.enc_req(N.WRQ, "twice.bin", options=[("timeout", 1)]), srv.addr)
+                kb, fb, pb = N.recv(sb2, trb)
+                trb.first = (kb, fb, pb)
+                for blk in (1, 2):
+                    sa.sendto(N.enc_data(blk, a_body[(blk - 1) * 512:blk * 512]), pa)
+                N.recv(sa, tra)                                   # ACK 2
+                if kb in ("ACK", "OACK"):
+                    for blk in (1, 2):
+                        sb2.sendto(N.enc_data(blk, b_body[(blk - 1) * 512:blk * 512]), pb)
+                        N.recv(sb2, trb)
+                sa.sendto(N.enc_data(3, a_body[1024:]), pa)
+                N.recv(sa, tra)                                   # ACK 3 (final)
+                time.sleep(0.05)
+                path = os.path.join(sb["srv"], "twice.bin")
+                got = open(path, "rb").read() if os.path.exists(path) else None
+                acked_final = any(a[1] and a[1].get("blk") == 3 for a in [(d, N.dec(d[2])[1]) for d in tra.datagrams if N.dec(d[2])[0] == "ACK"])
+                ok = (got == a_body) or not acked_final
+                checks["second_wrq_for_a_fresh_upload"] = checks.get("second_wrq_for_a_fresh_upload", 0) + 1
+                if not ok:
+                    v.violation("C02/net/second-wrq-mixes-uploads", f"{'single' if single else 'multi'}-port, --keep-on-error: a second WRQ for a name whose upload had just been accepted was {'accepted too' if trb and trb.first and trb.first[0] in ('ACK', 'OACK') else 'answered ' + str(trb and trb.first and trb.first[0])}; behind the first upload's final ACK the file holds {None if got is None else len(got)} bytes starting {None if not got else got[:4]!r} instead of its 1124 bytes",
+                                {"engine": "net", "single_port": single, "scenario": "second WRQ before the first block", "second_first_reply": str(trb and trb.first)[:120]})
+            sa.close()
+            sb2.close()
+    return checks, len(plans) + 2
 
 
 # ------------------------------------------------------------------ C08: ACK(k) followed at once by a stale ACK
@@ -739,6 +778,18 @@ def c16(v, tier):
             if data != contentB:
                 v.violation("C16/net/content", f"{cfgB}: download differs ({len(data)} vs {len(contentB)} bytes)", replay)
             info[cfgB] = "ok"
+    # a read-only server in duplicate-packets mode: the refusal of a write request is sent once
+    for single in (False, True):
+        sbR = ctx.sandbox("c16ro")
+        with N.Server(bins["tftpd"], sbR["srv"], single=single, dup=3, read_only=True, logdir=sbR["logs"]) as srvR:
+            evals += 1
+            s = N._sock(timeout=1.0)
+            s.sendto(N.enc_req(N.WRQ, "refused.bin"), srvR.addr)
+            k, f, src = N.recv(s, N.Transfer())
+            more = quiet_after(s, 0.1)
+            s.close()
+            if k != "ERROR" or more:
+                v.violation("C16/net/error-repeated", f"N=3,read-only,{'single' if single else 'multi'}: refusal of a WRQ answered {k} followed by {len(more)} more datagram(s)", {"engine": "net", "config": "N=3,read-only", "single_port": single})
     for Nd in ((1, 2, 3) if thorough else (1, 2)):
         for single in (False, True):
             sb = ctx.sandbox("c16")
@@ -784,6 +835,15 @@ def c16(v, tier):
                 s.close()
                 if k != "ERROR" or more:
                     v.violation("C16/net/error-repeated", f"{cfg}: refusal reply {k} followed by {len(more)} more datagram(s)", {"engine": "net", "config": cfg})
+                # the answer to a stray non-request datagram is sent once too
+                evals += 1
+                s = N._sock(timeout=1.0)
+                s.sendto(N.enc_ack(3), srv.addr)
+                k, f, src = N.recv(s, N.Transfer())
+                more = quiet_after(s, 0.05 + 0.002 * Nd)
+                s.close()
+                if k != "ERROR" or more:
+                    v.violation("C16/net/error-repeated", f"{cfg}: stray ACK answered {k} followed by {len(more)} more datagram(s)", {"engine": "net", "config": cfg, "request": "stray ACK"})
                 # the crate's own client facing the duplicates
                 cli = os.path.join(sb["root"], "client")
                 os.makedirs(os.path.join(cli, "dl"), exist_ok=True)
